@@ -85,7 +85,8 @@ def _runner_job(args):
 
 
 def _sched_job(args):
-    idx, n, w, steps, c0, seed, fail = args
+    idx, n, w, steps, c0, seed, fail = args[:7]
+    idle = len(args) > 7 and args[7]       # the finished first leg is restarted once without more steps before the real restart
     rnd = random.Random(seed)
     root = os.path.join(S._CTX["work"], f"sd{os.getpid()}")
     sysdrv.cleanup(root)
@@ -109,6 +110,12 @@ def _sched_job(args):
         infos.append(info)
         if info["error"] or info["hung"]:
             problems.append(f"first leg: {info['error'] or 'hung'}")
+    if c0 and idle:
+        ev, info = scheddrv.run_scheduler(root, n, w, c0, order, outcomes, restart_steps=c0)
+        events += ev
+        infos.append(info)
+        if info["error"] or info["hung"] or info.get("ndeliv", 0):
+            problems.append(f"idle restart of the finished first leg: {info['error'] or ('hung' if info['hung'] else str(info.get('ndeliv')) + ' moves run')}")
     fail_at = [rnd.randrange(1, max(2, steps - c0))] if fail else []
     ev, info = scheddrv.run_scheduler(root, n, w, steps, order, outcomes, fail_at=fail_at, restart_steps=steps if c0 else None)
     events += ev
@@ -119,6 +126,8 @@ def _sched_job(args):
         problems.append("scheduler() did not return (watchdog)")
     elif info["error"]:
         problems.append(f"scheduler() raised {info['error']['type']}: {info['error']['msg']}")
+    elif info.get("refused"):
+        problems.append(f"refused: setup_config returned None although {todo} of the {steps} requested moves are still to do")
     elif fail:
         if not info["raised"]:
             problems.append("a task failed but scheduler() did not receive its exception")
@@ -134,7 +143,7 @@ def _sched_job(args):
                 problems.append(f"executions per unit {sorted(info['nexec'].values())} for {todo} moves")
         if info.get("loop_thread_alive") or info.get("queue_left"):
             problems.append("runner not shut down cleanly")
-    return idx, (trace.encode_trace(events) if events and not fail else []), problems, {"n": n, "workers": w, "steps": steps, "c0": c0, "seed": seed, "fail": fail}
+    return idx, (trace.encode_trace(events) if events and not fail else []), problems, {"n": n, "workers": w, "steps": steps, "c0": c0, "seed": seed, "fail": fail, "idle": bool(idle)}
 
 
 def run(sc, tier):
@@ -201,11 +210,13 @@ def run(sc, tier):
         combos.append((len(combos), max(3, w + 1), w, s, c0, rnd.randrange(10 ** 6), False))
     for (w, s) in ([(2, 5)] if q else [(1, 4), (2, 5), (3, 6)]):
         combos.append((len(combos), max(3, w + 1), w, s, 0, rnd.randrange(10 ** 6), True))
+    for (w, s, c0) in ([(1, 5, 2), (2, 6, 3)] if q else [(1, 5, 2), (2, 6, 3), (3, 8, 4), (2, 7, 2)]):   # restart point = end of a finished run, twice
+        combos.append((len(combos), max(3, w + 1), w, s, c0, rnd.randrange(10 ** 6), False, True))
     results = common.pmap(_sched_job, combos)
     groups = {}
     for idx, enc, problems, spec in results:
         chk.evaluated(1)
-        chk.nontrivial(("sched", spec["workers"], spec["steps"], spec["c0"], spec["fail"]))
+        chk.nontrivial(("sched", spec["workers"], spec["steps"], spec["c0"], spec["fail"], spec.get("idle")))
         for p in problems:
             chk.violation(f"scheduler:{p.split(' ')[0]}", f"scheduler() with W={spec['workers']} steps={spec['steps']} restart at {spec['c0']}: {p}",
                           {"property": PID, "binding": "B", "spec": "Runner", "run": spec, "observed": p, "clause": "StepsExact"})
